@@ -51,6 +51,20 @@ func (s *ExpressionListRewriter) hasNegationAncestor() bool {
 	return false
 }
 
+// hasDisjunctionAncestor reports whether the node being exited is an operand, at any depth, of an OR or XOR. Such an
+// operand is one of several alternatives and must stay where it is: moved into the match pattern it would constrain
+// every row.
+func (s *ExpressionListRewriter) hasDisjunctionAncestor() bool {
+	for idx := len(s.descentStack) - 1; idx >= 0; idx-- {
+		switch s.descentStack[idx].(type) {
+		case *cypher.Disjunction, *cypher.ExclusiveDisjunction:
+			return true
+		}
+	}
+
+	return false
+}
+
 func (s *ExpressionListRewriter) popExpression() {
 	s.descentStack = s.descentStack[:len(s.descentStack)-1]
 }
@@ -131,7 +145,7 @@ func (s *ExpressionListRewriter) Exit(node cypher.SyntaxNode) {
 		if variable, typeOK := typedNode.Reference.(*cypher.Variable); !typeOK {
 			s.SetErrorf("expected a variable as the reference for a kind matcher but received: %T", node)
 		} else if variable.Symbol == query.EdgeSymbol {
-			if s.hasNegationAncestor() {
+			if s.hasNegationAncestor() || s.hasDisjunctionAncestor() {
 				return
 			}
 
